@@ -63,6 +63,8 @@ class BBUnitaryChecker(ast.NodeVisitor):
         self.flags = unitary_flags
         for stmt in bb.statements:
             self.visit(stmt)
+        if bb.branch_pred is not None:
+            self.visit(bb.branch_pred)
 
     def _check_classical_args(self, args: list[ast.expr]) -> bool:
         for arg in args:
